@@ -269,9 +269,10 @@ def r3_each_argument_once(ctx):
 
 
 def r4_call_shapes(ctx):
-    from .rewriter import law_call_shapes
+    from .rewriter import law_call_shapes, law_helper_names_private
 
     law_call_shapes(ctx)
+    law_helper_names_private(ctx)
 
 
 # ----------------------------------------------------------------- R5 walrus placement
